@@ -310,6 +310,15 @@ example : (totalEnergy 2 [0, 0, 1] [1, 2, 4] [(10 : ℝ), 20]).1 = [13, 24] := b
 example : gapRHF [(-3 : ℝ), -1, 2, 5] 2 = some 3 := by
   simp [gapRHF]; norm_num
 
+/-- one heavy atom with `tore = 4` and populations `1.5, 1, 1, 0.5`: `q = 0` -/
+example : (atomicCharges 1 4 [(4 : ℝ)] [1.5, 1, 1, 0.5]).sum = 0 := by
+  rw [(charges_sum_to_molecular_charge 1 4 [4] [1.5, 1, 1, 0.5] rfl rfl).1]
+  norm_num
+
+example : (heatFormation true [0, 0, 1] [(5 : ℝ), 7] [1, 2, 3] [10, 20, 30]).1[1]? = some (7 - 3 + 30) := by
+  rw [(hf_identity [0, 0, 1] [5, 7] [1, 2, 3] [10, 20, 30] 1 (by decide)).1]
+  simp [slotSum]
+
 /-- a charged "molecule" (one H with population 0: a proton) — its dipole is not translation invariant -/
 example : dipoleCharge [{ Z := 1, tore := 1, R := fun _ => 0, P := fun _ _ => 0, dd := 0 }] = 1 := by
   simp [dipoleCharge, dipolePop]
